@@ -628,43 +628,296 @@ func rb3NoNegativeEarlyExit(w *World) {
 		if b.Lit != nil || b.Decl.Recv == nil || b.Decl.Name.Name != "Has" || !strings.HasSuffix(w.Fset.Position(b.Decl.Pos()).Filename, "descriptors.go") {
 			continue
 		}
+		// the scan itself, or the same-package helper Has delegates to
+		scanBodies := []*ast.BlockStmt{b.Body}
+		hasLoop := false
 		ast.Inspect(b.Body, func(x ast.Node) bool {
-			var body *ast.BlockStmt
-			switch l := x.(type) {
-			case *ast.RangeStmt:
-				body = l.Body
-			case *ast.ForStmt:
-				body = l.Body
-			default:
-				return true
+			switch x.(type) {
+			case *ast.RangeStmt, *ast.ForStmt:
+				hasLoop = true
 			}
-			n++
-			key := "membership-scan|" + b.Label
-			bad := ""
-			ast.Inspect(body, func(y ast.Node) bool {
-				switch s := y.(type) {
-				case *ast.FuncLit:
-					return false
-				case *ast.ReturnStmt:
-					if len(s.Results) == 1 {
-						if tv, ok := info.Types[s.Results[0]]; ok && tv.Value != nil && tv.Value.String() == "false" {
-							bad = "return false at " + w.pos(s.Pos())
+			return true
+		})
+		if !hasLoop {
+			ast.Inspect(b.Body, func(x ast.Node) bool {
+				if c, ok := x.(*ast.CallExpr); ok {
+					if f := callee(info, c); f != nil && f.Pkg() == p.Types {
+						if d := w.decls[f.Origin()]; d != nil && d.Body != nil {
+							scanBodies = append(scanBodies, d.Body)
 						}
-					}
-				case *ast.BranchStmt:
-					if s.Tok == token.BREAK || s.Tok == token.GOTO {
-						bad = s.Tok.String() + " at " + w.pos(s.Pos())
 					}
 				}
 				return true
 			})
-			if bad == "" {
-				w.ok(key, x.Pos(), "the scan leaves the loop early only with a positive answer")
-			} else {
-				w.violation(key, x.Pos(), "the membership scan gives up inside the loop ("+bad+"): that assumes the ranges are sorted, but they are stored in declaration order, so Has disagrees with the Go runtime for ranges declared out of order")
-			}
-			return false
-		})
+		}
+		for _, sb := range scanBodies {
+			ast.Inspect(sb, func(x ast.Node) bool {
+				var body *ast.BlockStmt
+				switch l := x.(type) {
+				case *ast.RangeStmt:
+					body = l.Body
+				case *ast.ForStmt:
+					body = l.Body
+				default:
+					return true
+				}
+				n++
+				key := "membership-scan|" + b.Label
+				bad := ""
+				ast.Inspect(body, func(y ast.Node) bool {
+					switch s := y.(type) {
+					case *ast.FuncLit:
+						return false
+					case *ast.ReturnStmt:
+						if len(s.Results) == 1 {
+							if tv, ok := info.Types[s.Results[0]]; ok && tv.Value != nil && tv.Value.String() == "false" {
+								bad = "return false at " + w.pos(s.Pos())
+							}
+						}
+					case *ast.BranchStmt:
+						if s.Tok == token.BREAK || s.Tok == token.GOTO {
+							bad = s.Tok.String() + " at " + w.pos(s.Pos())
+						}
+					}
+					return true
+				})
+				if bad == "" {
+					w.ok(key, x.Pos(), "the scan leaves the loop early only with a positive answer")
+				} else {
+					w.violation(key, x.Pos(), "the membership scan gives up inside the loop ("+bad+"): that assumes the ranges are sorted, but they are stored in declaration order, so Has disagrees with the Go runtime for ranges declared out of order")
+				}
+				return false
+			})
+		}
 	}
 	w.floor("Has membership scans in linker/descriptors.go", n, 2)
+}
+
+// RO2 (C04): explicit options are tri-state. A descriptor attribute that falls back to a resolved
+// feature (resolveFeature) when an option is *absent* must distinguish "absent" from "explicitly
+// false": `[packed = false]` in a proto3 file overrides the PACKED default, and the Go runtime
+// reports IsPacked() == false for it. Before the fall-back, an option of an options message may
+// therefore be consulted only through a presence test on its pointer field (`opts.X != nil`, then
+// `*opts.X`); an early return guarded by the truth of a generated bool getter (`GetX()`) conflates
+// the two cases.
+func ro2ExplicitOptionPresence(w *World) {
+	w.rule("RO2")
+	p := w.pkg("linker")
+	rf := w.fn("linker", "resolveFeature")
+	if p == nil || rf == nil {
+		return
+	}
+	info := p.TypesInfo
+	n := 0
+	for _, b := range allFuncBodies(p) {
+		if b.Lit != nil || b.Obj == rf.Obj {
+			continue
+		}
+		var fallback *ast.CallExpr
+		ast.Inspect(b.Body, func(x ast.Node) bool {
+			if c, ok := x.(*ast.CallExpr); ok && fallback == nil {
+				if f := callee(info, c); f != nil && f.Origin() == rf.Obj {
+					fallback = c
+				}
+			}
+			return true
+		})
+		if fallback == nil {
+			continue
+		}
+		n++
+		bad := ""
+		ast.Inspect(b.Body, func(x ast.Node) bool {
+			ifs, ok := x.(*ast.IfStmt)
+			if !ok || ifs.Pos() > fallback.Pos() {
+				return true
+			}
+			ast.Inspect(ifs.Cond, func(y ast.Node) bool {
+				c, ok := y.(*ast.CallExpr)
+				if !ok || len(c.Args) != 0 {
+					return true
+				}
+				sel, ok := ast.Unparen(c.Fun).(*ast.SelectorExpr)
+				if !ok || !strings.HasPrefix(sel.Sel.Name, "Get") {
+					return true
+				}
+				f := callee(info, c)
+				if f == nil || f.Pkg() == nil || !strings.HasSuffix(f.Pkg().Path(), "descriptorpb") {
+					return true
+				}
+				sig := f.Type().(*types.Signature)
+				if sig.Results().Len() != 1 {
+					return true
+				}
+				if bt, ok := sig.Results().At(0).Type().Underlying().(*types.Basic); !ok || bt.Kind() != types.Bool {
+					return true
+				}
+				if recv := sig.Recv(); recv != nil && strings.HasSuffix(strings.TrimPrefix(recv.Type().String(), "*"), "Options") {
+					bad = types.ExprString(c) + " at " + w.pos(c.Pos())
+				}
+				return true
+			})
+			return true
+		})
+		key := "explicit-option-presence|" + b.Label
+		if bad == "" {
+			w.ok(key, b.Decl.Pos(), "before falling back to the resolved feature, explicit options are consulted through presence tests only")
+		} else {
+			w.violation(key, b.Decl.Pos(), "the decision before the feature fall-back is taken on the truth of the getter "+bad+": an option explicitly set to false is treated like an absent one, so the compiler's descriptor reports the feature default where the Go runtime reports the explicit value")
+		}
+	}
+	w.floor("descriptor attributes that fall back to resolved features", n, 4)
+}
+
+// RB4 (C04): Has agrees with the range convention of its descriptor kind. protoreflect documents
+// FieldRanges as [start, end) and EnumRanges as [start, end] (Get returns exactly what the
+// descriptor proto stores). The membership condition of each Has method of the linker's range
+// wrappers — followed into a same-package helper when the scan was extracted — is evaluated on a
+// finite model (n, start, end over -2..3) against the convention chosen by the element type of the
+// wrapper's Get method ([2]protoreflect.EnumNumber: inclusive end; [2]protoreflect.FieldNumber:
+// exclusive end).
+func rb4RangeConvention(w *World) {
+	w.rule("RB4")
+	p := w.pkg("linker")
+	if p == nil {
+		return
+	}
+	info := p.TypesInfo
+	n := 0
+	for _, b := range allFuncBodies(p) {
+		if b.Lit != nil || b.Decl.Recv == nil || b.Decl.Name.Name != "Has" || !strings.HasSuffix(w.Fset.Position(b.Decl.Pos()).Filename, "descriptors.go") {
+			continue
+		}
+		// convention from the sibling Get method's result type
+		recvT := info.TypeOf(b.Decl.Recv.List[0].Type)
+		if pt, ok := recvT.(*types.Pointer); ok {
+			recvT = pt.Elem()
+		}
+		named, ok := recvT.(*types.Named)
+		if !ok {
+			continue
+		}
+		inclusive, known := false, false
+		for i := 0; i < named.NumMethods(); i++ {
+			m := named.Method(i)
+			if m.Name() != "Get" {
+				continue
+			}
+			res := m.Type().(*types.Signature).Results()
+			if res.Len() == 1 {
+				if arr, ok := res.At(0).Type().Underlying().(*types.Array); ok {
+					switch {
+					case strings.HasSuffix(arr.Elem().String(), "protoreflect.EnumNumber"):
+						inclusive, known = true, true
+					case strings.HasSuffix(arr.Elem().String(), "protoreflect.FieldNumber"):
+						inclusive, known = false, true
+					}
+				}
+			}
+		}
+		if !known {
+			continue
+		}
+		n++
+		key := "range-convention|" + b.Label
+		// the condition guarding `return true`, in Has or in the helper it delegates to
+		var cond ast.Expr
+		var cinfo *types.Info = info
+		var elemVar string
+		find := func(body *ast.BlockStmt, inf *types.Info) {
+			ast.Inspect(body, func(x ast.Node) bool {
+				ifs, ok := x.(*ast.IfStmt)
+				if !ok || cond != nil {
+					return true
+				}
+				for _, st := range ifs.Body.List {
+					if r, ok := st.(*ast.ReturnStmt); ok && len(r.Results) == 1 {
+						if tv, ok := inf.Types[r.Results[0]]; ok && tv.Value != nil && tv.Value.String() == "true" {
+							cond, cinfo = ifs.Cond, inf
+						}
+					}
+				}
+				return true
+			})
+		}
+		find(b.Body, info)
+		if cond == nil {
+			ast.Inspect(b.Body, func(x ast.Node) bool {
+				if c, ok := x.(*ast.CallExpr); ok && cond == nil {
+					if f := callee(info, c); f != nil && f.Pkg() == p.Types {
+						if d := w.decls[f.Origin()]; d != nil && d.Body != nil {
+							find(d.Body, p.TypesInfo)
+						}
+					}
+				}
+				return true
+			})
+		}
+		if cond == nil {
+			w.undecided(key, b.Decl.Pos(), "cannot find the condition under which Has returns true")
+			continue
+		}
+		// operands: r[0], r[1] (or named start/end) and the queried number: collect the atoms
+		atoms := map[string]bool{}
+		ast.Inspect(cond, func(y ast.Node) bool {
+			switch z := y.(type) {
+			case *ast.IndexExpr:
+				atoms[render(z)] = true
+				return false
+			case *ast.Ident:
+				if _, isVar := cinfo.Uses[z].(*types.Var); isVar {
+					atoms[z.Name] = true
+				}
+			}
+			return true
+		})
+		var lo, hi, q string
+		for a := range atoms {
+			switch {
+			case strings.HasSuffix(a, "[0]") || a == "start":
+				lo = a
+			case strings.HasSuffix(a, "[1]") || a == "end":
+				hi = a
+			default:
+				if q == "" || a == "n" {
+					q = a
+				}
+			}
+		}
+		_ = elemVar
+		if lo == "" || hi == "" || q == "" {
+			w.undecided(key, cond.Pos(), "cannot identify start / end / queried number in "+types.ExprString(cond))
+			continue
+		}
+		bad := ""
+		for nv := int64(-2); nv <= 3 && bad == ""; nv++ {
+			for s := int64(-2); s <= 3 && bad == ""; s++ {
+				for e := s; e <= 3 && bad == ""; e++ {
+					env := &numEnv{info: cinfo, vars: map[string]num{q: {i: nv}, lo: {i: s}, hi: {i: e}}}
+					got, ok := env.eval(cond)
+					if !ok || !got.isBool {
+						bad = "cannot evaluate " + types.ExprString(cond)
+						break
+					}
+					want := s <= nv && nv < e
+					if inclusive {
+						want = s <= nv && nv <= e
+					}
+					if got.b != want {
+						bad = fmt.Sprintf("for the stored range (%d, %d) and n=%d the scan answers %v, the convention says %v", s, e, nv, got.b, want)
+					}
+				}
+			}
+		}
+		conv := "[start, end)"
+		if inclusive {
+			conv = "[start, end]"
+		}
+		if bad == "" {
+			w.ok(key, cond.Pos(), "membership condition "+types.ExprString(cond)+" agrees with the "+conv+" convention of this range kind on the finite model")
+		} else {
+			w.violation(key, cond.Pos(), "membership condition "+types.ExprString(cond)+" does not follow the "+conv+" convention of this range kind: "+bad+" — Has disagrees with the Go runtime at the range's last number")
+		}
+	}
+	w.floor("Has methods of range wrappers", n, 2)
 }
